@@ -25,11 +25,14 @@ UNIT = Unit()
 
 
 class Int(V):
-    __slots__ = ('e', 'signed')
+    """dec: when the value was produced by parsing a decimal digit string, that digit string (Str) - lets
+    `to_string` be modelled structurally (strip leading zeros) instead of by division"""
+    __slots__ = ('e', 'signed', 'dec')
 
-    def __init__(self, e, signed):
+    def __init__(self, e, signed, dec=None):
         self.e = e
         self.signed = signed
+        self.dec = dec
 
     @property
     def width(self):
